@@ -13,6 +13,13 @@ pub fn i64_edges(anchors: Vec<i64>) -> BoxedStrategy<i64> {
         }),
         4 => (proptest::sample::select(a2), -3i64..=3).prop_map(|(a, d)| a.saturating_add(d)),
         1 => proptest::sample::select(vec![i64::MIN, i64::MIN + 1, -1, 0, 1, i64::MAX - 1, i64::MAX]),
+        // counts whose quotient by a time unit sits at a 32-bit boundary (give or take the epoch shift):
+        // where an internal narrowing after a division would go wrong
+        2 => (proptest::sample::select(vec![1i128 << 31, -(1i128 << 31), 1i128 << 32, -(1i128 << 32), (1i128 << 31) - 719_163, -(1i128 << 31) - 719_163, (1i128 << 31) - 719_528]),
+              prop_oneof![2 => -3i128..=3, 1 => -800_000i128..=800_000],
+              proptest::sample::select(vec![1i128, 60, 3600, 86_400, 1000, 86_400_000, 1_000_000, 86_400_000_000, 1_000_000_000]),
+              any::<u64>())
+            .prop_map(|(b, k, unit, r)| ((b + k) * unit + (r as i128 % unit)).clamp(i64::MIN as i128, i64::MAX as i128) as i64),
     ]
     .boxed()
 }
